@@ -61,37 +61,16 @@ Qed.
 Lemma finalize_oo : forall f r0 dbc r gcf twr fy s x s', finalize cf dbc r gcf twr fy s = (x, s') ->
   (forall f', fy = Some f' -> f' = f) -> (forall r', r = Some r' -> r' = r0) -> OpOn f r0 s s'.
 Proof.
-  unfold finalize; intros f r0 dbc r gcf twr fy s x s' H Hf Hr.
-  match type of H with (if ?b then _ else _) = _ => destruct b; [inv H; apply OpOn_refl|] end.
-  match type of H with (let '(_, _) := ?e in _) = _ => destruct e as [y s1] eqn:E0 end.
-  assert (M0 : OpOn f r0 s s1).
-  { match type of E0 with match ?d with _ => _ end = _ => destruct d as [c|] end; [|inv E0; apply OpOn_refl].
-    match type of E0 with (let '(_, _) := ?e in _) = _ => destruct e as [y1 s2] eqn:E1 end.
-    assert (M1 : OpOn f r0 s s2).
-    { destruct (fairy_reset cf c twr s) as [z s3] eqn:Er. apply fairy_reset_rl, (RecLevel_OpOn f r0) in Er.
-      destruct z; [|inv E1; auto]. dm E1; try (inv E1; auto; fail).
-      apply close_connection_rl, (RecLevel_OpOn f r0) in E1. ot; eauto. }
-    destruct y1; [inv E0; auto|].
-    match type of E0 with (let '(_, _) := ?e in _) = _ => destruct e as [z s3] eqn:E2 end.
-    assert (M2 : OpOn f r0 s2 s3).
-    { match type of E2 with context [if ?b then set_taint_gc ?u true else ?u] =>
-        set (sa := if b then set_taint_gc u true else u) in *;
-        assert (Ma : OpOn f r0 u sa) by (subst sa; destruct b; [oleaf|apply OpOn_refl]) end.
-      ot; [exact Ma|].
-      destruct r; [eapply RecLevel_OpOn, rec_invalidate_rl; exact E2|inv E2; apply OpOn_refl]. }
-    repeat dm E0; inv E0; ot; eauto. }
-  destruct y; [|inv H; auto].
-  match type of H with (let '(_, _) := ?e in _) = _ => destruct e as [w s2] eqn:E1 end.
-  assert (M1 : OpOn f r0 s1 s2).
-  { destruct r as [r1|]; [|inv E1; apply OpOn_refl].
-    dm E1; [|inv E1; apply OpOn_refl]. rewrite <- (Hr r1 eq_refl). eapply rec_checkin_oo; eauto. }
-  destruct w; [|inv H; ot; eauto].
-  destruct fy as [f'|]; inv H; [|ot; eauto]. ot; [exact M0|]. ot; [exact M1|].
-  rewrite (Hf f' eq_refl). constructor; auto.
-  - intros g Hg. change (f_rec (set_f_rec (set_f_dbc s2 (upd (f_dbc s2) f None)) (upd (f_rec s2) f None)) g)
-      with (upd (f_rec s2) f None g). apply upd_other; auto.
-  - right. change (f_rec (set_f_rec (set_f_dbc s2 (upd (f_dbc s2) f None)) (upd (f_rec s2) f None)) f)
-      with (upd (f_rec s2) f None f). apply upd_same.
+  intros f r0 dbc r gcf twr fy s x s' H Hf Hr.
+  eapply (finalize_gen cf (OpOn f r0) (OpOn_refl f r0) (OpOn_trans f r0)); [| | | |exact H].
+  - intros. apply RecLevel_OpOn; auto.
+  - intros. oleaf.
+  - intros r1 s1 x1 s2 Hr1 Hc. rewrite <- (Hr r1 Hr1). eapply rec_checkin_oo; eauto.
+  - intros f' s1 Hf'. rewrite (Hf f' Hf'). constructor; auto.
+    + intros g Hg. change (f_rec (set_f_rec (set_f_dbc s1 (upd (f_dbc s1) f None)) (upd (f_rec s1) f None)) g)
+        with (upd (f_rec s1) f None g). apply upd_other; auto.
+    + right. change (f_rec (set_f_rec (set_f_dbc s1 (upd (f_dbc s1) f None)) (upd (f_rec s1) f None)) f)
+        with (upd (f_rec s1) f None f). apply upd_same.
 Qed.
 
 Lemma fairy_checkin_oo : forall f r0 twr s x s', fairy_checkin cf f twr s = (x, s') ->
